@@ -29,3 +29,28 @@ Proof.
   destruct (kv_has s (bkey addr (sg_name cr))); cbn [negb andb]; [reflexivity|].
   destruct (kv_has s (nkey_of (mkNote addr (sg_name cr) now contents priv))); reflexivity.
 Qed.
+
+(* DeleteNotification: one removal from the signer's own inbox, never a failure; BlockSenders, per named sender: one
+   entry in the signer's own list when the sender resolves, else the whole message fails *)
+Lemma gen_DeleteNotification_spec : gen_DeleteNotification = GVal ([Ev "remove-from-own-inbox" []], true).
+Proof. reflexivity. Qed.
+
+Lemma gen_BlockOne_spec resolve_ok :
+  gen_BlockOne resolve_ok = if resolve_ok then GVal ([Ev "block-in-own-list" []], true) else GVal ([], false).
+Proof. destruct resolve_ok; reflexivity. Qed.
+
+Theorem h_delete_is_the_interpretation s cr from t :
+  h_delete s cr from t =
+  match gen_DeleteNotification with
+  | GVal ([_], true) => (kv_del s (nkey (sg_name cr) from t), Ok)
+  | _ => (s, Fail)
+  end.
+Proof. reflexivity. Qed.
+
+Theorem h_block_loop_is_the_interpretation s blocker target rest :
+  h_block_loop s blocker (target :: rest) =
+  match gen_BlockOne (match target with Some _ => true | None => false end), target with
+  | GVal (_, true), Some a => h_block_loop (kv_set s (bkey blocker a) (block_entry blocker a)) blocker rest
+  | _, _ => (s, Fail)
+  end.
+Proof. rewrite gen_BlockOne_spec. destruct target; reflexivity. Qed.
